@@ -414,6 +414,9 @@ func (e *Explorer) RunOnce(prefix []string) *Exec {
 				x.apply(alts[choice])
 			}
 			synctest.Wait()
+			if os.Getenv("VERIF_DEBUG_STACKS") == "end" {
+				fmt.Printf("---- goroutines of the bubble when the exploration of this execution ended ----\n%s\n", bubbleStacks())
+			}
 			for _, c := range x.Controls {
 				c.inTime = c.Returned()
 			}
